@@ -230,6 +230,8 @@ func (s *FastModularNetworkSolver) recursiveActivateNode(currentNode int) (res b
 	} else {
 		res = true
 	}
+	// the pre-signal was consumed: the forward step accumulates into this buffer and expects to find it empty
+	s.neuronSignalsBeingProcessed[currentNode] = 0
 	return res, err
 }
 
